@@ -66,7 +66,11 @@ func c36Gen(t *rapid.T, tier string) any {
 	if tier == "thorough" {
 		maxBlocks, maxMsgs, maxEntries, maxLimit = 16, 12, 12, 32
 	}
-	c.Limit = rapid.IntRange(1, maxLimit).Draw(t, "limit")
+	limits := []int{1, 2, 3, 4, 6, 8, 12}
+	if maxLimit > 12 {
+		limits = append(limits, 16, 32)
+	}
+	c.Limit = rapid.SampledFrom(limits).Draw(t, "limit")
 	c.ReplaceSize = rapid.SampledFrom([]int{0, 64, 1024}).Draw(t, "replace")
 	c.TaskWorkers = rapid.IntRange(1, 3).Draw(t, "workers")
 	c.Blocks = rapid.IntRange(1, maxBlocks).Draw(t, "blocks")
@@ -191,8 +195,15 @@ type c36PC struct {
 	firstDHWant   int64 // first want with SendDontHave
 	wants         int   // number of messages that carried a want for (p,c)
 	lastAnswer    int64 // seq of the latest block / HAVE / DONT_HAVE sent for (p,c)
+	lastSentDone  int64 // seq at which MessageSent returned for the latest answer
 	blocksSent    int
 	lastWantWasDH bool
+	// shed: the task that answers the latest want (or the latest announcement of
+	// the block) was pushed while the peer's task queue held, or was about to
+	// hold, as many tasks as the want-list limit allows: the task queue drops
+	// what exceeds the limit (load shedding; see the known finding)
+	shed     bool
+	subsumed bool
 }
 
 func c36Run(t *testing.T, ci any, trace bool) *verifsim.Result {
@@ -359,7 +370,39 @@ func c36Run(t *testing.T, ci any, trace bool) *verifsim.Result {
 				judge(env)
 				s.Yield("consumer.sent")
 				e.MessageSent(env.Peer, env.Message)
+				// MessageSent removes the wants it answers from the ledger, also a want
+				// that was renewed after the envelope had been built (the engine documents
+				// this race); for the overflow rules such a want counts as answered
+				if p, ok := pidx[env.Peer]; ok {
+					now := s.Seq()
+					for _, blk := range env.Message.Blocks() {
+						if b, ok := index[blk.Cid().KeyString()]; ok {
+							pc(p, b).lastSentDone = now
+						}
+					}
+					for _, bp := range env.Message.BlockPresences() {
+						if b, ok := index[bp.Cid.KeyString()]; ok {
+							pc(p, b).lastSentDone = now
+						}
+					}
+				}
 				env.Sent()
+				// Until Sent has been called the engine treats the answer as in flight and
+				// merges a renewed want for the same CID into it: the answer covers every
+				// want that arrived before this point.
+				if p, ok := pidx[env.Peer]; ok {
+					now := s.Seq()
+					for _, blk := range env.Message.Blocks() {
+						if b, ok := index[blk.Cid().KeyString()]; ok {
+							pc(p, b).lastAnswer = now
+						}
+					}
+					for _, bp := range env.Message.BlockPresences() {
+						if b, ok := index[bp.Cid.KeyString()]; ok {
+							pc(p, b).lastAnswer = now
+						}
+					}
+				}
 			}
 		})
 
@@ -409,9 +452,29 @@ func c36Run(t *testing.T, ci any, trace bool) *verifsim.Result {
 							beforePrio[b] = int(w.Priority)
 						}
 					}
+					// task-queue pressure: tasks pending for the peer plus the tasks this
+					// message can produce, against the limit the queue is truncated to
+					pending := 0
+					if tp := e.peerRequestQueue.PeerTopics(peers[pi]); tp != nil {
+						pending = len(tp.Pending)
+					}
+					npush := 0
+					for _, en := range effective {
+						if !en.Cancel {
+							npush++
+						}
+					}
+					pressure := pending+npush > c.Limit
+					if pressure {
+						s.Probe("task-queue-at-limit")
+					}
 					for b, en := range effective {
 						if !en.Cancel {
 							st := pc(pi, b)
+							st.shed = pressure
+							// a want that asks for DONT_HAVE while an earlier want for the same
+							// CID that did not ask for it is still unanswered (known finding)
+							st.subsumed = st.wants > 0 && st.lastAnswer < st.lastWant && !st.lastWantWasDH && en.DontHave
 							if st.firstWant == 0 {
 								st.firstWant = start
 							}
@@ -430,15 +493,37 @@ func c36Run(t *testing.T, ci any, trace bool) *verifsim.Result {
 						return
 					}
 					storeSeqAfter := s.Seq()
+					// tasks pushed by NotifyNewBlocks while the call was in progress count too
+					if tp := e.peerRequestQueue.PeerTopics(peers[pi]); tp != nil && len(tp.Pending)+len(tp.Active)+npush > c.Limit && !pressure {
+						s.Probe("task-queue-at-limit")
+						for b, en := range effective {
+							if !en.Cancel {
+								pc(pi, b).shed = true
+							}
+						}
+					}
 					after := e.WantlistForPeer(peers[pi])
+					{
+						var as []int
+						for _, w := range after {
+							if b, ok := index[w.Cid.KeyString()]; ok {
+								as = append(as, b)
+							}
+						}
+						sort.Ints(as)
+						bs := append([]int(nil), before...)
+						sort.Ints(bs)
+						s.Logf("peer %d msg#%d ledger %v -> %v", pi, mi, bs, as)
+					}
 					if len(after) > c.Limit {
 						s.Failf("wantlist-over-limit", "after message #%d of peer %d its queued want-list has %d entries, the limit is %d", mi, pi, len(after), c.Limit)
 						return
 					}
 					// ---- overflow dominance, judged only when the store did not change during the call ----
 					stable := true
+					storeSeqAfter = s.Seq() // the ledger was read after the call: the window ends here
 					for b := range hist {
-						for _, ch := range hist[b].changes {
+						for _, ch := range append(append([]int64(nil), hist[b].changes...), must[b].changes...) {
 							if ch >= storeSeqBefore && ch <= storeSeqAfter {
 								stable = false
 							}
@@ -450,6 +535,7 @@ func c36Run(t *testing.T, ci any, trace bool) *verifsim.Result {
 							nwants++
 						}
 					}
+					s.Logf("peer %d msg#%d stable=%v nwants=%d window=[%d,%d]", pi, mi, stable, nwants, storeSeqBefore, storeSeqAfter)
 					if !stable || nwants > c.Limit || m.Full {
 						continue
 					}
@@ -461,7 +547,7 @@ func c36Run(t *testing.T, ci any, trace bool) *verifsim.Result {
 					}
 					answered := func(b int) bool { // a want that was answered meanwhile legitimately left the ledger
 						st := pc(pi, b)
-						return st.lastAnswer >= start
+						return st.lastAnswer >= start || st.lastSentDone >= start
 					}
 					for b, en := range effective {
 						if en.Cancel || denied[fmt.Sprintf("%d/%d", pi, b)] || afterSet[b] || answered(b) {
@@ -476,12 +562,15 @@ func c36Run(t *testing.T, ci any, trace bool) *verifsim.Result {
 							if oe, again := effective[ob]; again && !oe.Cancel {
 								continue // renewed by this very message: not an "older" want
 							}
-							if !hist[ob].now() {
-								s.Failf("overflow-kept-blockless-want", "peer %d message #%d: want for #%d (priority %d) was rejected for lack of room while the older want for #%d, whose block is not in the store, was kept (limit %d)", pi, mi, b, en.Prio, ob, c.Limit)
+							// The statement ranks wants by "has a local block" first and by
+							// priority second; which of two equally ranked wants goes is open.
+							newHas, oldHas := must[b].now(), hist[ob].now()
+							if newHas && !oldHas {
+								s.Failf("overflow-kept-blockless-want", "peer %d message #%d: want for #%d (priority %d, block in the store) was rejected for lack of room while the older want for #%d, whose block is not in the store, was kept (limit %d)", pi, mi, b, en.Prio, ob, c.Limit)
 								return
 							}
-							if beforePrio[ob] < en.Prio {
-								s.Failf("overflow-kept-lower-priority", "peer %d message #%d: want for #%d with priority %d was rejected for lack of room while the older want for #%d with priority %d was kept (limit %d)", pi, mi, b, en.Prio, ob, beforePrio[ob], c.Limit)
+							if newHas == oldHas && beforePrio[ob] < en.Prio {
+								s.Failf("overflow-kept-lower-priority", "peer %d message #%d: want for #%d with priority %d was rejected for lack of room while the older want for #%d with priority %d was kept (both blocks %s; limit %d)", pi, mi, b, en.Prio, ob, beforePrio[ob], map[bool]string{true: "in the store", false: "absent"}[newHas], c.Limit)
 								return
 							}
 						}
@@ -506,6 +595,12 @@ func c36Run(t *testing.T, ci any, trace bool) *verifsim.Result {
 						}
 						must[op.Block].set(s.Seq(), true)
 						notifies[op.Block]++
+						for pi, p := range peers {
+							if tp := e.peerRequestQueue.PeerTopics(p); tp != nil && len(tp.Pending) >= c.Limit {
+								pc(pi, op.Block).shed = true
+								s.Probe("task-queue-at-limit")
+							}
+						}
 						e.NotifyNewBlocks([]blocks.Block{pool[op.Block]})
 						s.Fault("block-added")
 					case "remove":
@@ -535,6 +630,22 @@ func c36Run(t *testing.T, ci any, trace bool) *verifsim.Result {
 			shutdown()
 			return
 		}
+		// removedSince: a removal of block b started at or after seq (must[b] turns
+		// false at the start of a removal)
+		removedSince := func(b int, seq int64) bool {
+			for i := 1; i < len(must[b].changes); i += 2 {
+				if must[b].changes[i] >= seq {
+					return true
+				}
+			}
+			// ... or one that had started before and ended after it
+			for i := 1; i < len(hist[b].changes); i += 2 {
+				if hist[b].changes[i] >= seq {
+					return true
+				}
+			}
+			return false
+		}
 		// ---- settle: no more messages or store changes; every accepted want must be answered ----
 		s.Settle(5 * time.Second)
 		if s.Failed() {
@@ -559,12 +670,26 @@ func c36Run(t *testing.T, ci any, trace bool) *verifsim.Result {
 					return
 				}
 				if present {
-					s.Failf("want-never-answered", "peer %d still has a queued want for block #%d (want-block=%v), the block is in the store, and 5 s after the last event nothing was sent for it since the want arrived", pi, b, w.WantType == pb.Message_Wantlist_Block)
+					if st.shed {
+						s.Failf("answer-shed-by-task-queue-limit", "peer %d still has a queued want for block #%d (want-block=%v), the block is in the store, and nothing was sent for it; the task that would have answered it was pushed while the peer's task queue was at its limit (%d)", pi, b, w.WantType == pb.Message_Wantlist_Block, c.Limit)
+					} else if removedSince(b, st.firstWant) {
+						s.Failf("want-never-answered-after-block-removal", "peer %d still has a queued want for block #%d (want-block=%v), the block is in the store, and nothing was sent for it; the block had been removed from the store and added again after the peer first asked for it", pi, b, w.WantType == pb.Message_Wantlist_Block)
+					} else {
+						s.Failf("want-never-answered", "peer %d still has a queued want for block #%d (want-block=%v), the block is in the store, and 5 s after the last event nothing was sent for it since the want arrived", pi, b, w.WantType == pb.Message_Wantlist_Block)
+					}
 					shutdown()
 					return
 				}
 				if st.lastWantWasDH && st.lastAnswer < st.lastWant {
-					s.Failf("dont-have-never-sent", "peer %d asked for DONT_HAVE for block #%d, the block is absent, and 5 s after the last event no answer was sent since its latest want", pi, b)
+					if st.shed {
+						s.Failf("answer-shed-by-task-queue-limit", "peer %d asked for DONT_HAVE for block #%d, the block is absent, and no answer was sent since its latest want; the task that would have answered it was pushed while the peer's task queue was at its limit (%d)", pi, b, c.Limit)
+					} else if removedSince(b, st.firstWant) {
+						s.Failf("want-never-answered-after-block-removal", "peer %d asked for DONT_HAVE for block #%d, the block is absent, and no answer was sent since its latest want; the block had been removed from the store after the peer first asked for it, while a task that believed it present was pending or in flight", pi, b)
+					} else if st.subsumed {
+						s.Failf("dont-have-subsumed-by-earlier-want", "peer %d asked for DONT_HAVE for block #%d while its earlier want for the same block, which had not asked for DONT_HAVE, was still unanswered; the block is absent and nothing was sent since", pi, b)
+					} else {
+						s.Failf("dont-have-never-sent", "peer %d asked for DONT_HAVE for block #%d, the block is absent, and 5 s after the last event no answer was sent since its latest want", pi, b)
+					}
 					shutdown()
 					return
 				}
